@@ -175,7 +175,13 @@ func workerMain(dir string) {
 			continue
 		}
 		fmt.Fprintf(prog, "B %d\n", n)
+		// per-case watchdog: a call that does not come back is reported, not waited for
+		wd := time.AfterFunc(caseWatchdog(), func() {
+			fmt.Fprintf(prog, "T %d\n", n)
+			os.Exit(98)
+		})
 		res := runCase(&c)
+		wd.Stop()
 		b, _ := json.Marshal(res)
 		fmt.Fprintf(prog, "E %d %s\n", n, b)
 	}
@@ -261,7 +267,7 @@ func runBatch(cases []WCase, wallPerBatch time.Duration) ([]WResult, error) {
 			code = ee.ExitCode()
 		}
 		switch {
-		case timedOut:
+		case timedOut || code == 98:
 			r.Outcome = "timeout"
 		case strings.Contains(tail, "fatal error:"):
 			r.Outcome = "fatal"
@@ -285,6 +291,17 @@ func runBatch(cases []WCase, wallPerBatch time.Duration) ([]WResult, error) {
 		}
 	}
 	return results, nil
+}
+
+// caseWatchdog: wall-clock limit for one case inside the child. Its firing is
+// never a verdict by itself: the case is re-run alone and judged there.
+func caseWatchdog() time.Duration {
+	if v := os.Getenv("VCHECK_CASE_WATCHDOG_S"); v != "" {
+		if n, err := strconv.Atoi(v); err == nil && n > 0 {
+			return time.Duration(n) * time.Second
+		}
+	}
+	return 45 * time.Second
 }
 
 func firstMatchLine(s, sub string) string {
@@ -321,7 +338,10 @@ func runBatches(r *mon.Run, cases []WCase, per, w int) []WResult {
 	for i := range out {
 		if out[i].Outcome == "timeout" || (out[i].Outcome == "exit" && strings.Contains(out[i].Panic, "exit status -1")) {
 			r.Count("cases_rerun_alone", 1)
-			if res, err := runBatch(cases[i:i+1], 5*time.Minute); err == nil && len(res) == 1 {
+			os.Setenv("VCHECK_CASE_WATCHDOG_S", "120")
+			res, err := runBatch(cases[i:i+1], 5*time.Minute)
+			os.Unsetenv("VCHECK_CASE_WATCHDOG_S")
+			if err == nil && len(res) == 1 {
 				out[i] = res[0]
 			}
 		}
